@@ -200,7 +200,7 @@ SPEC = dict(
     id="C11",
     lean_project="HvPull", props_module="HvPull.Props.C11", driver="hvdrv_pull",
     harness="hv_pull", bin="hv_pull", mode="c11",
-    cases={"quick": 3000, "thorough": 40000},
+    cases={"quick": 3300, "thorough": 46000},
     translate=translate,
     level="proof",
     design_ref="DESIGN.md §5 C11",
@@ -217,11 +217,14 @@ SPEC = dict(
                 "by poll (answer + size_hint after every poll, closure logs) and the same op lines run through the compiled "
                 "model; std-iterator / fused / bracket oracles are evaluated on the real code. The match tables of Zip, "
                 "ZipLongest and CrossSingleton are re-extracted from the Rust source on every run (Gen/PullTables.lean) and "
-                "the model is proved to take the same arm (K_table_matches_source)."),
+                "the model is proved to take the same arm (K_table_matches_source). Two-level pipelines (zip(map,filter), "
+                "take(flat_map), chain(fuse,skip), zip_longest(fuse(take_while),enumerate)) are driven on the real code and in "
+                "the model through answer traces (pipeline_* theorems)."),
     level_note=("Trusted: Lean kernel + propext/Classical.choice/Quot.sound; Pin/Context/Toggle/Meta bookkeeping erased; "
                 "usize as Nat (saturating/checked arithmetic never overflows in the model); inner iterators/streams/futures "
                 "modelled as the list / script / (pendings, output) they produce; each theorem is about one combinator over "
-                "scripted sources (nested pipelines are covered by composition only informally); send_sink/send_push/next "
+                "scripted sources; pipelines are modelled by feeding a combinator the answer trace of another (a pull is used "
+                "through its answers and hints only) with two showcase composition theorems; send_sink/send_push/next "
                 "are not modelled; harness/differ are our code."),
     trusted_base=["Pin, Context merging, Toggle type-level CanPend/CanEnd bookkeeping and Meta are erased",
                   "inner iterators / streams / futures are modelled by the finite list / script they produce",
